@@ -13,8 +13,8 @@ NM = SO + '::NelderMeadSimplexSolver'
 N = 2
 
 
-def _common(h, nrec, pop, popE, extra_summaries=None):
-    cons = h.fn('CONS', ret='same_nd', inplace=h.choice('constraints_in_place', [False, True]))
+def _common(h, nrec, pop, popE, extra_summaries=None, cons_ret='same_nd'):
+    cons = h.fn('CONS', ret=cons_ret, inplace=h.choice('constraints_in_place', [False, True]) if cons_ret == 'same_nd' else False)
     cost = h.fn('OBJECTIVE', ret='real', log='evals')
     cb = h.fn('CALLBACK', ret='none', log='callback', truthy=h.bool('callback_object_is_truthy'))
     term = h.fn('TERMINATION', ret='bool', log='termination')
@@ -55,10 +55,12 @@ def nm_gen0(h):
     x0 = h.clist([h.real('x0_0'), h.real('x0_1')], nd=True)
     pop = h.clist([x0, h.clist([0.0, 0.0], nd=True), h.clist([0.0, 0.0], nd=True)], nd=True)
     popE = h.clist([h.inf(), h.inf(), h.inf()], nd=True)
-    s, cons, cost = _common(h, 0, pop, popE)
+    # the constraints function may return an INTEGER-typed vector (e.g. constraints.integers(); deterministic, idempotent)
+    cons_ret = h.choice('constraints_return', ['same_nd', 'same_nd_int'])
+    s, cons, cost = _common(h, 0, pop, popE, cons_ret=cons_ret)
     g0 = h.snapshot(x0)
     h.call(h.getattr(s, '_Step'))
-    c = h.call(h.fn('CONS', ret='same_nd'), g0)
+    c = h.call(h.fn('CONS', ret=cons_ret), g0)
     fc = h.call(h.fn('OBJECTIVE', ret='real'), c)
     evals, recs, cbs, terms = h.log('evals'), h.log('records'), h.log('callback'), h.log('termination')
     e = dict(s=s, c=c, fc=fc, evals=evals, recs=recs, cbs=cbs, terms=terms)
@@ -69,6 +71,10 @@ def nm_gen0(h):
     h.check('C04/one-step-monitor-record-of-the-best', 'len(recs) == 1 and seq_eq(recs[0][0], c) and recs[0][1] == fc', **e)
     h.check('C04/callback-once-with-the-best', 'len(cbs) == 1 and seq_eq(cbs[0][0], c)', **e)
     h.check('C05/termination-condition-initialised', 'len(terms) == 1', **e)
+    # representation invariant the later generations rely on (their contracts take population / popEnergy as arrays of
+    # reals): whatever the constraints return, the simplex must be able to hold any real trial point unchanged
+    h.check('C01/simplex-and-energies-are-float-arrays-whatever-the-constraints-return',
+            's.population.dtype == float and s.popEnergy.dtype == float', **e)
 
 
 @contract('C08/NM._Step/generation=1,N=2', ['C08', 'C01', 'C04'], NM + '._Step', native=False)
